@@ -29,6 +29,13 @@ class Boom(Exception):
     pass
 
 
+def gparse(text):
+    """Requests may use fragment arguments (experimental): the grammar with the flag is a superset."""
+    from graphql import parse
+
+    return parse(text, experimental_fragment_arguments=True)
+
+
 def make_schema():
     from graphql import build_schema
 
